@@ -63,34 +63,26 @@ def check(prog, rep):
     ok = kern is not None and any(t is kern for c, t in np_calls)
     rep.add('H0', dfun, entry, 'block function %s' % (kern.qualname if kern else None), site.call.lineno, ok,
             'the function mapped over blocks must be the kernel the numpy branch calls')
-    # ---- arrays in kernel parameter order
-    if kern is not None and np_calls:
-        npc = [c for c, t in np_calls if t is kern]
-        if npc:
-            np_args = [norm(a) for a in npc[0].args]
-            # dask call inside the nested function: its params (raster, xs, ys) are bound by the call in impl
-            da_call = None
-            for n in impl.own_nodes():
-                if isinstance(n, ast.Call) and prog.resolve_callable(impl, impl.module, n.func) is dfun:
-                    da_call = n
-            bind = {}
-            if da_call is not None:
-                for p, a in zip(dfun.params, da_call.args):
-                    bind[p] = norm(a)
-            got = []
-            for a in site.arrays:
-                t = norm(a)
-                root = t.split('.')[0]
-                got.append(t.replace(root, bind.get(root, root), 1) if root in bind else t)
-
-            def unwrap(t):
-                # a grid may be wrapped into a dask array on the way: da.from_array(xs, chunks=...) is still `xs`
-                import re as _re
-                m_ = _re.match(r'^(?:da|dask\.array)\.from_array\((\w+)[,)]', t.replace(' ', ''))
-                return m_.group(1) if m_ else t
-            got = [unwrap(t) for t in got]
-            rep.add('P7-args', dfun, entry, 'map_overlap arrays %s vs numpy call %s' % (got, np_args), site.call.lineno,
-                    got == np_args, 'the data and the two coordinate grids must be passed in the same order on both paths')
+    # ---- arrays in kernel parameter order, as wrapper terms (wterm.py): local names, helpers and where the grids are
+    # wrapped into dask arrays do not matter
+    from ..wterm import WT, key as tkey, show as tshow, unwrap_dask
+    wt = WT(prog, keep=[kern] if kern is not None else [])
+    wt.run(impl)
+    npc = [x for x in wt.calls if x.callee is kern]
+    dac = [x for x in wt.calls if x.name.endswith('map_overlap') and x.args and x.args[0][0] == 'localfunc' and x.args[0][2] is kern]
+    if not dac:
+        dac = [x for x in wt.calls if x.name.endswith('map_overlap')]
+    np_terms = da_terms = None
+    if len(npc) == 1 and len(dac) == 1:
+        np_terms = list(npc[0].args)
+        da_terms = [unwrap_dask(a) for a in dac[0].args[1:]]
+        ok = len(np_terms) == len(da_terms) and all(tkey(a) == tkey(b_) for a, b_ in zip(np_terms, da_terms))
+        rep.add('P7-args', dfun, entry, 'map_overlap arrays vs numpy call: %d / %d arguments' % (len(da_terms), len(np_terms)),
+                site.call.lineno, ok, 'the data and the two coordinate grids must be passed in the same order on both paths: %s' %
+                [(tshow(a, 60), tshow(b_, 60)) for a, b_ in zip(np_terms, da_terms) if tkey(a) != tkey(b_)][:2])
+    else:
+        rep.add('P7-args', dfun, entry, 'map_overlap arrays vs numpy call', site.call.lineno, None,
+                '%d numpy-path calls and %d map_overlap calls of the kernel found' % (len(npc), len(dac)))
     # ---- H2
     b = site.kwargs.get('boundary')
     bt = norm(b) if b is not None else None
@@ -207,37 +199,41 @@ def check(prog, rep):
         rep.add('P7a', dfun, entry, 'depth[%d] = %s' % (slot, norm(hd[slot])), fb.lineno, ok,
                 'the halo on the %s axis (depth slot %d) must be int(max_distance / cellsize_%s + c) with c >= 0 or a '
                 'ceil of that quotient: %s' % ('row' if ax == 'y' else 'column', slot, ax, why))
-    # coordinate grids chunked like the data
-    for g in ('xs', 'ys'):
-        ok = False
-        txt = None
-        for c_ in calls(impl.node):
-            if c_ in impl.own_nodes() and short(c_) == 'from_array' and c_.args and norm(c_.args[0]) == g:
-                txt = norm(c_)
-                ch = kw(c_, 'chunks') or (c_.args[1] if len(c_.args) > 1 else None)
-                nm = kw(c_, 'name')
-                # graph keys: the default name hashes the array's content; an explicit name that is not a function of
-                # the grid's values makes two different grids collide when two results are computed together
-                okname = nm is None or (isinstance(nm, ast.Constant) and nm.value in (None, False)) or \
-                    (isinstance(nm, ast.Call) and short(nm) == 'tokenize' and any(norm(a) == g for a in nm.args))
-                # any chunking is sound: da.map_overlap unifies the chunks of its array arguments
-                ok = ch is not None and okname
-        rep.add('P7-grid', impl, entry, (txt or 'dask grid %s' % g)[:140], impl.node.lineno, ok,
-                'the dask %s grid must wrap the numpy %s grid built from the raster coordinates' % (g, g))
-    # coordinate grids built from the raster's coords
-    for g, fn, dimname, ext in (('xs', 'tile', 'x', 0), ('ys', 'repeat', 'y', 1)):
-        ok = False
-        txt = None
-        for n in impl.own_nodes():
-            if isinstance(n, ast.Assign) and norm(n.targets[0]) == g and isinstance(n.value, ast.Call) and \
-                    short(n.value) == 'reshape':
-                txt = norm(n)
-                inner = n.value.func.value
-                ok = isinstance(inner, ast.Call) and short(inner) == fn and len(inner.args) == 2 and \
-                    norm(inner.args[0]) in ('raster[%s].data' % dimname, 'raster[%s].values' % dimname) and \
-                    norm(inner.args[1]) == 'raster.shape[%d]' % ext and norm(n.value.args[0]) == 'raster.shape'
-        rep.add('P7-grid', impl, entry, txt or 'grid %s' % g, impl.node.lineno, ok,
-                'x grid = the x coordinates tiled over the rows, y grid = the y coordinates repeated along the columns')
+    # coordinate grids wrapped into dask arrays: chunked, and keyed by their content
+    fa = [x for x in wt.calls if x.name in ('dask.array.from_array',)]
+    grids = [tkey(t) for t in (np_terms or [])[1:3]]
+    for x in fa:
+        if not x.args or tkey(x.args[0]) not in grids:
+            continue
+        g = 'xs' if grids.index(tkey(x.args[0])) == 0 else 'ys'
+        ch = x.kwargs.get('chunks') or (x.args[1] if len(x.args) > 1 else None)
+        nm = x.kwargs.get('name')
+        # graph keys: the default name hashes the array's content; an explicit name that is not a function of
+        # the grid's values makes two different grids collide when two results are computed together
+        okname = nm is None or (nm[0] == 'const' and nm[1] in (None, False)) or \
+            (nm[0] == 'call' and str(nm[1]).endswith('tokenize') and any(tkey(a) == tkey(x.args[0]) for a in nm[2]))
+        # any chunking is sound: da.map_overlap unifies the chunks of its array arguments
+        rep.add('P7-grid', impl, entry, 'dask grid %s = from_array(grid, chunks=%s%s)' % (g, tshow(ch, 40) if ch else None,
+                                                                                       ', name=%s' % tshow(nm, 40) if nm else ''),
+                x.node.lineno, ch is not None and okname,
+                'the dask %s grid must wrap the numpy %s grid built from the raster coordinates, chunked, under a content-derived name' % (g, g))
+    if not [x for x in fa if x.args and tkey(x.args[0]) in grids]:
+        rep.add('P7-grid', impl, entry, 'dask grids', impl.node.lineno, None, 'no from_array wrapping of the coordinate grids found')
+    # coordinate grids built from the raster's coords: the grid terms are evaluated with list models of the few NumPy
+    # constructors involved on a 2 x 3 raster with x = (10, 20, 30), y = (1, 2)
+    if np_terms is not None and len(np_terms) >= 3:
+        XS, YS = [10, 20, 30], [1, 2]
+        want = {'xs': [[XS[j_] for j_ in range(3)] for i_ in range(2)], 'ys': [[YS[i_] for j_ in range(3)] for i_ in range(2)]}
+        for pos, g in ((1, 'xs'), (2, 'ys')):
+            got = np_terms[pos]
+            try:
+                val = _grid_value(got, impl.params[0], XS, YS)
+                ok = val == want[g]
+                why = 'on a 2 x 3 raster: %s' % (val,)
+            except _NoModel as e:
+                ok, why = None, 'no model for %s' % e
+            rep.add('P7-grid', impl, entry, 'grid %s = %s' % (g, tshow(got, 110)), impl.node.lineno, ok,
+                    'x grid = the x coordinates tiled over the rows, y grid = the y coordinates repeated along the columns; ' + why)
     rep.floor('P7a', 2)
     rep.floor('P7b', 4)
     rep.floor('P7-grid', 4)
@@ -275,3 +271,79 @@ def pad_form(v, ax):
         d = inner - q
         return (d.is_const() and d.const_value() >= 0), 'ceil argument %r' % (inner,)
     return False, 'unexpected form %r' % (v,)
+
+
+class _NoModel(Exception):
+    pass
+
+
+def _grid_value(t, rname, XS, YS):
+    """value of a coordinate-grid term on the model raster (nested lists); _NoModel for anything not modelled"""
+    shape = (len(YS), len(XS))
+
+    def flat(v):
+        return [z for row in v for z in (flat(row) if isinstance(row, list) else [row])] if isinstance(v, list) else [v]
+
+    def reshape(v, shp):
+        v = flat(v)
+        if len(shp) == 1:
+            return v
+        r, c_ = shp
+        if r == -1:
+            r = len(v) // c_
+        if c_ == -1:
+            c_ = len(v) // r
+        if r * c_ != len(v):
+            raise _NoModel('reshape size')
+        return [v[i * c_:(i + 1) * c_] for i in range(r)]
+
+    def ev(t):
+        if t[0] == 'const':
+            return t[1]
+        if t[0] == 'tuple':
+            return tuple(ev(x) for x in t[1])
+        if t[0] == 'data' and t[1][0] == 'index' and t[1][1] == ('param', rname) and t[1][2][0] in ('param', 'const'):
+            d = t[1][2][1]
+            if d in ('x', 'y'):
+                return list(XS) if d == 'x' else list(YS)
+        if t[0] == 'data' and t[1][0] == 'coord' and t[1][1] == ('param', rname):
+            return list(XS) if t[1][2] == 'x' else list(YS)
+        if t[0] == 'attr' and t[1] == ('param', rname) and t[2] == 'shape':
+            return shape
+        if t[0] == 'attr' and t[1] == ('data', ('param', rname)) and t[2] == 'shape':
+            return shape
+        if t[0] == 'index':
+            base, idx = ev(t[1]), ev(t[2])
+            if isinstance(idx, int) and isinstance(base, (list, tuple)):
+                return base[idx]
+            raise _NoModel('index')
+        if t[0] == 'call':
+            fn, args, kws = t[1], [ev(a) for a in t[2]], {k: ev(v) for k, v in t[3]}
+            if fn == 'numpy.tile' and len(args) == 2:
+                a, reps = args
+                if isinstance(reps, int):
+                    return flat(a) * reps
+                if isinstance(reps, tuple) and len(reps) == 2 and reps[1] == 1:
+                    return [list(flat(a)) for _ in range(reps[0])]
+                raise _NoModel('tile reps')
+            if fn == 'numpy.repeat' and len(args) == 2 and isinstance(args[1], int) and not kws:
+                return [z for z in flat(args[0]) for _ in range(args[1])]
+            if fn == 'numpy.broadcast_to' and len(args) == 2 and isinstance(args[0], list) and not isinstance(args[0][0], list) \
+                    and len(args[0]) == args[1][-1]:
+                return [list(args[0]) for _ in range(args[1][0])]
+            if fn == 'numpy.meshgrid' and len(args) == 2 and kws.get('indexing', 'xy') in ('xy', 'ij'):
+                a, b = flat(args[0]), flat(args[1])
+                if kws.get('indexing', 'xy') == 'xy':
+                    return ([[a[j] for j in range(len(a))] for i in range(len(b))], [[b[i] for j in range(len(a))] for i in range(len(b))])
+                return ([[a[i] for j in range(len(b))] for i in range(len(a))], [[b[j] for j in range(len(b))] for i in range(len(a))])
+            if isinstance(fn, tuple) and fn[0] == 'method' and fn[2] == 'reshape':
+                shp = args[0] if len(args) == 1 and isinstance(args[0], tuple) else tuple(args)
+                return reshape(ev(fn[1]), shp)
+            if fn in ('numpy.array', 'numpy.asarray') and len(args) == 1:
+                return args[0]
+            raise _NoModel(str(fn)[:60])
+        raise _NoModel(str(t)[:60])
+    v = ev(t)
+    if isinstance(v, tuple):
+        raise _NoModel('tuple value')
+    return v
